@@ -85,6 +85,7 @@ class Planner:
             "qinput": r.random() < 0.3,
             "lead_ranks": subset(r, [1, 2, 3], 0.5) + ([0] if (r.random() < 0.12 and prop in ("C08", "C09", "C11", "C13")) else []),
             "shared": r.random() < 0.08 and prop == "C08",
+            "tied": r.random() < 0.12 and prop in ("C08", "C13"),
         }
         for k, v in (cfg.get("force") or {}).items():
             self.sw[k] = v
@@ -119,6 +120,12 @@ class Planner:
                 items.append(self.act())
         if not any(self.has_quantizable(i) for i in items):
             items.append({"k": "lin", "i": f, "o": self.feat(), "bias": True})
+        if self.sw.get("tied") and r.random() < 0.6:
+            # two Linear modules of the same shape sharing one weight Parameter (tied weights)
+            sq = [i for i, it in enumerate(items) if it["k"] == "lin" and it["i"] == it["o"] == f]
+            if sq:
+                items.append({"k": "lin", "i": f, "o": f, "bias": r.random() < 0.5, "tie_to": sq[-1]})
+                return {"k": "seq", "c": items}, in_shape
         if self.sw.get("shared") and r.random() < 0.5:
             # weight tying: a square Linear used twice in the same Sequential
             sq = [i for i, it in enumerate(items) if it["k"] == "lin" and it["i"] == it["o"] == f]
@@ -265,7 +272,8 @@ class Planner:
         if a.weights == "qint8" and a.dtype == "bfloat16" and any(i % 4 == 0 for i in lin_in):
             a.weights = r.choice([q for q in WQ if q != "qint8"])
         filt = None
-        if self.sw["filter"] and r.random() < 0.5 and len(a.leaves) > 1:
+        tied = '"tie_to"' in __import__("json").dumps(a.arch)
+        if (self.sw["filter"] and r.random() < 0.5 and len(a.leaves) > 1) or (tied and r.random() < 0.7 and len(a.leaves) > 1):
             filt = [p for p, _ in a.leaves if r.random() < 0.6] or [a.leaves[0][0]]
         a.qpaths = [p for p, k in a.leaves if (k in ("lin", "conv") or a.activations is not None) and (filt is None or p in filt)]
         a.quantized = True
@@ -601,7 +609,7 @@ def h_load(P, ops, fid, target=None, restart=None):
         "op": "load",
         "fid": fid,
         "new": a.id,
-        "target": target or r.choice(["default", "same", "same", "requantize"]),
+        "target": target or r.choice(["default", "same", "same", "requantize", "meta_assign"]),
         "assign": r.random() < 0.3,
         "weights_only": r.random() < 0.7,
         "init": P.S.sub("reinit", a.id),
@@ -692,6 +700,17 @@ def lifecycle(P, ops, table, n, faults=False):
                 P.forward(ops, a, fresh=False, fault=False)
         elif k == "train":
             h_train(P, ops, a)
+        elif k == "calib_train":
+            # training while calibrating (quantization-aware fine-tuning inside the context), incl. two forwards
+            # sharing one backward
+            def tbody(bops, depth, a=a):
+                for _ in range(r.randint(1, 2)):
+                    h_train(P, bops, a, lr_p=0.3)
+                    if r.random() < 0.5:
+                        bops[-1]["input2"] = dict(P.input_desc(a, fresh=True), lead=bops[-1]["input"]["lead"])
+                        bops[-1]["input2"].pop("q", None)
+            op = P.calib(ops, tbody, 0)
+            op["streamline"] = False
         elif k == "state_dict":
             P.emit(ops, {"op": "state_dict", "dep": a.id, "keep_vars": r.random() < 0.3})
         elif k == "save":
@@ -795,7 +814,7 @@ def plan_c11(P):
     ops = []
     P.sw["qinput"] = False
     deps = prelude(P, ops, calib_p=0.85)
-    table = [("train", 8), ("wupdate", 3), ("forward", 2), ("freeze", 1), ("newdep", 0.7), ("calib", 1.2), ("saveload", 0.3)]
+    table = [("train", 8), ("wupdate", 3), ("forward", 2), ("freeze", 1), ("newdep", 0.7), ("calib", 1.2), ("saveload", 0.3), ("calib_train", 1.5)]
     lifecycle(P, ops, table, r.randint(3, 9), faults=False)
     return ops
 
@@ -855,6 +874,23 @@ def plan_c12(P):
         op["streamline"] = st
         op.pop("debug", None)
         a.calibrated = True
+        if a.family == "mlp" and r.random() < 0.3:
+            # a later context calibrates only the tail of the chain, which now receives a float input
+            from . import archs as _archs
+
+            lins = [(pth, sp) for pth, sp in _archs.walk_leaves(a.arch) if sp["k"] == "lin" and pth in a.qpaths]
+            if len(lins) >= 2:
+                pth, sp = lins[-1]
+
+                def sbody(bops, depth, a=a, pth=pth, sp=sp):
+                    for _ in range(r.randint(1, 2)):
+                        dsc = {"seed": P.S.sub("subin", P.nops), "lead": [r.choice([1, 2, 3])], "cls": r.choice(ICLS), "mag": r.choice([1.0, 0.1, 10.0]), "feat": [sp["i"]]}
+                        P.emit(bops, {"op": "forward", "dep": a.id, "input": dsc, "sub": pth})
+
+                op2 = P.calib(ops, sbody, 0)
+                op2["momentum"] = r.choice([0.9, 0.5, 0.0])
+                op2["streamline"] = st
+                op2.pop("debug", None)
         if r.random() < 0.3:
             fid = h_save(P, ops, a)
             b = h_load(P, ops, fid, target=r.choice(["same", "same", "requantize", "default"]), restart=True)
